@@ -151,7 +151,7 @@ func genBreaker(r *rand.Rand, n int, tier string, emit func(string) string) {
 		delay := int64(r.Intn(200))
 		dfn := int64(-1)
 		if r.Intn(3) == 0 {
-			dfn = int64(r.Intn(300))
+			dfn = pick(r, int64(0), 0, 1, int64(r.Intn(300)), delay, delay+1)
 		}
 		now := int64(r.Intn(1000))
 		if r.Intn(2) == 0 {
